@@ -1036,6 +1036,18 @@ namespace SplineTrajectory
             return nullptr;
         }
 
+#ifdef SPLINETRAJ_VERIF
+        // Verification hook H1 (read-only introspection; compiled only with -DSPLINETRAJ_VERIF):
+        // lets a harness tell whether the active map pointers refer to this object's own default
+        // maps and whether two optimizers share a built-in workspace.
+        bool verifUsesOwnDefaultTimeMap() const { return active_time_map_ == &default_time_map_; }
+        bool verifUsesOwnDefaultSpatialMap() const { return active_spatial_map_ == &default_spatial_map_; }
+        const void *verifActiveTimeMapAddress() const { return static_cast<const void *>(active_time_map_); }
+        const void *verifActiveSpatialMapAddress() const { return static_cast<const void *>(active_spatial_map_); }
+        const void *verifInternalWorkspaceAddress() const { return static_cast<const void *>(internal_ws_.get()); }
+        bool verifLayoutDirty() const { return layout_dirty_; }
+#endif
+
         struct GradientCheckResult
         {
             bool valid = false;          
